@@ -101,6 +101,25 @@ def oracle_stat(case, rec):
     return K >= 2 and len(set(lens)) >= 2
 
 
+def scribble_and_repeat(call, first, sig):
+    """The caller rescales, in place, every array it was given back (say the phase axis, to degrees), then makes the identical
+    request again: the answer must be the one it got the first time."""
+    keep = [np.array(a, dtype=float) for a in first]
+    for a in first:
+        if isinstance(a, np.ndarray) and a.flags.writeable and a.dtype.kind == 'f':
+            a *= 57.29577951308232
+            a += 1.0
+    try:
+        again = call()
+    except Exception as e:
+        raise Violation(sig + '/repeat-raises/' + type(e).__name__, repr(e))
+    for k, a in zip(keep, again):
+        a = np.asarray(a, dtype=float)
+        if a.shape != k.shape or not np.array_equal(a, k, equal_nan=True):
+            raise Violation(sig + '/repeated-request-differs-after-the-caller-edited-the-earlier-result', '')
+    return keep
+
+
 # ----------------------------------------------------------------------------
 # (b) phase_align
 
@@ -170,10 +189,14 @@ def oracle_align(case, rec):
             kw['cycles'] = emd.cycles.Cycles(ip.copy())
         except Exception as e:
             raise Violation('C14/phase_align/Cycles-raises/' + type(e).__name__, repr(e))
+    def request():
+        return emd.cycles.phase_align(ip.copy(), x.copy(), npoints=npoints, interp_kind=case['kind'], **kw)
     try:
-        avg, grid = emd.cycles.phase_align(ip.copy(), x.copy(), npoints=npoints, interp_kind=case['kind'], **kw)
+        avg, grid = request()
     except Exception as e:
         raise Violation('C14/phase_align/raises/%s/%s' % (type(e).__name__, case['cycles_arg']), repr(e))
+    if not isinstance(kw.get('cycles'), emd.cycles.Cycles):
+        avg, grid = scribble_and_repeat(request, (avg, grid), 'C14/phase_align')
     avg = np.asarray(avg, dtype=float)
     egrid = (np.arange(npoints) + 0.5) * TWO_PI / npoints
     if np.asarray(grid).shape != egrid.shape or not np.allclose(grid, egrid, rtol=0, atol=1e-12):
@@ -265,7 +288,13 @@ def oracle_bin(case, rec):
                 kw['bin_edges'] = np.asarray(case['edges'], dtype=float).copy()
             if case.get('weights') is not None:
                 kw['weights'] = np.asarray(case['weights'], dtype=float).copy()
-            avg, var, centres = emd.cycles.bin_by_phase(ip.copy(), x.copy(), nbins=nbins, **kw)
+            def request():
+                kw2 = {k: v.copy() for k, v in kw.items()}
+                return emd.cycles.bin_by_phase(ip.copy(), x.copy(), nbins=nbins, **kw2)
+            avg, var, centres = request()
+            avg, var, centres = scribble_and_repeat(request, (avg, var, centres), 'C14/bin_by_phase')
+        except Violation:
+            raise
         except Exception as e:
             raise Violation('C14/bin_by_phase/raises/%s%s' % (type(e).__name__, '/custom-edges' if case.get('edges') is not None else ''), repr(e))
     avg = np.asarray(avg, dtype=float)
